@@ -65,6 +65,8 @@ func c01entries() []c01entry {
 	fx("Trace", slog.TraceLevel, func(l slog.Logger) { l.Trace("m", "k", 1) })
 	fx("Print", slog.AlwaysLevel, func(l slog.Logger) { l.Print("m", "k", 1) })
 	fx("Println", slog.AlwaysLevel, func(l slog.Logger) { l.Println("m", "k", 1) })
+	fx("Println() without arguments", slog.AlwaysLevel, func(l slog.Logger) { l.Println() })
+	fx("Print(blank message)", slog.AlwaysLevel, func(l slog.Logger) { l.Print("") })
 	fx("OK", slog.OKLevel, func(l slog.Logger) { l.OK("m", "k", 1) })
 	fx("Success", slog.SuccessLevel, func(l slog.Logger) { l.Success("m", "k", 1) })
 	fx("Fail", slog.FailLevel, func(l slog.Logger) { l.Fail("m", "k", 1) })
@@ -105,6 +107,7 @@ func c01entries() []c01entry {
 	px("Trace", slog.TraceLevel, func() { slog.Trace("m", "k", 1) })
 	px("Print", slog.AlwaysLevel, func() { slog.Print("m", "k", 1) })
 	px("Println", slog.AlwaysLevel, func() { slog.Println("m", "k", 1) })
+	px("Println() without arguments", slog.AlwaysLevel, func() { slog.Println() })
 	px("OK", slog.OKLevel, func() { slog.OK("m", "k", 1) })
 	px("Success", slog.SuccessLevel, func() { slog.Success("m", "k", 1) })
 	px("Fail", slog.FailLevel, func() { slog.Fail("m", "k", 1) })
@@ -426,6 +429,56 @@ func c01run(c *Ctx) {
 								sev = e.sev
 							}
 							c.Outcome(fmt.Sprintf("%d|%d|%v|%v", L, sev, is.DebugMode(), len(rec.events) > 0))
+						}
+					}
+				}
+			}
+		}
+		// ---- debug mode flips between two decisions of the same logger (no SetLevel on it in between)
+		for _, L := range builtinLevels {
+			for _, startDebug := range []bool{false, true} {
+				for _, via := range []string{"Debug", "DebugContext", "LogAttrs", "Enabled", "slog.Debug"} {
+					a2, rec2 := c01build(ops, s.hist)
+					target := a2
+					if via == "slog.Debug" {
+						target = slog.Default()
+						w := &plainW{"w", rec2}
+						target.SetWriter(w).SetErrorWriter(w)
+					}
+					target.SetLevel(L)
+					slog.VerifRestoreModes(startDebug, false)
+					issue := func() bool {
+						rec2.reset()
+						switch via {
+						case "Debug":
+							target.Debug("m")
+						case "DebugContext":
+							target.DebugContext(c01ctx, "m")
+						case "LogAttrs":
+							target.LogAttrs(c01ctx, slog.DebugLevel, "m")
+						case "Enabled":
+							return target.Enabled(slog.DebugLevel)
+						case "slog.Debug":
+							slog.Debug("m")
+						}
+						return len(rec2.events) > 0
+					}
+					for step := 0; step < 3; step++ {
+						dbg := slog.VerifDebugMode()
+						want, fixed := refAdmit(L, slog.DebugLevel, dbg, customs)
+						got := issue()
+						c.Count("evaluations", 1)
+						if fixed && got != want {
+							c.Violate(mkViolation(fmt.Sprintf("C01|admission-after-debug-flip|via=%s|L=%s|start=%v|step=%d", via, levelName(L), startDebug, step), "admission",
+								fmt.Sprintf("logger level %s, Debug issued through %s: debug mode is %v now (it was flipped after an earlier decision of the same logger), reference admits=%v, observed=%v", levelName(L), via, dbg, want, got),
+								c01case{History: s.hist, Text: htext, L: int(L), R: int(slog.DebugLevel), Entry: "debug-flip:" + via, Format: fmt.Sprint(startDebug)}))
+							break
+						}
+						// flip the process-wide mode the way user code does: SetLevel(Debug) on an unrelated logger switches it on
+						if !dbg {
+							slog.New("unrelated").SetLevel(slog.DebugLevel)
+						} else {
+							slog.VerifRestoreModes(false, false)
 						}
 					}
 				}
